@@ -134,7 +134,7 @@ func init() {
 
 func init() {
 	reg(&propCfg{ID: "C17", QuickRuns: 1500, QuickSecs: 40, ThoroughRuns: 50000, ThoroughSecs: 780, Chunk: 20,
-		RuleNote:   "C17: a random tree (3..25 entries: files, directories, symlinks, hard links) is created twice; 8..30 (thorough ..80) mutations drawn against the current state — create of a file with each open mode +-OTRUNC followed by a write through the new fid, of a directory, symlink (also dangling) and hard link, write to an existing file, remove of files and of empty and non-empty directories, wstat rename to free and occupied names, truncate to 0..beyond size, chmod, mtime — are applied through raw 9P requests to tree A and with the os package to twin B; after every step the trees are compared recursively (names, kinds, permission bits, contents, link targets, link counts), error replies must leave A unchanged (create, remove) and carry the errno of the POSIX failure in 9P2000.u, and Tstat on the fid after create/rename must name the new object. Create over an existing name may either fail or behave like a non-exclusive open. Every 4th run (stratum os-error) lets one os / syscall call of the mutating request fail with a drawn errno (EIO, ENOSPC, EACCES, EMFILE, ENOENT, EINTR, EROFS, ENOMEM) instead of being performed: the reply must carry that errno, a failed create/remove must leave the tree unchanged, and the twin is re-synchronised afterwards. With probability 0.4 a Twstat step (rename, truncate, chmod, chown, mtime) is sent on a fid that was first opened with a drawn mode (OREAD/OWRITE/ORDWR/OEXEC).",
+		RuleNote:   "C17: a random tree (3..25 entries: files, directories, symlinks, hard links) is created twice; 8..30 (thorough ..80) mutations drawn against the current state — create of a file with each open mode +-OTRUNC followed by a write through the new fid, of a directory, symlink (also dangling) and hard link, write to an existing file, remove of files and of empty and non-empty directories, wstat rename to free and occupied names, truncate to 0..beyond size, chmod, mtime — are applied through raw 9P requests to tree A and with the os package to twin B; after every step the trees are compared recursively (names, kinds, permission bits, contents, link targets, link counts), error replies must leave A unchanged (create, remove) and carry the errno of the POSIX failure in 9P2000.u, and Tstat on the fid after create/rename must name the new object. Create over an existing name may either fail or behave like a non-exclusive open. Every 4th run (stratum os-error) lets one os / syscall call of the mutating request fail with a drawn errno (EIO, ENOSPC, EACCES, EMFILE, ENOENT, EINTR, EROFS, ENOMEM) instead of being performed: the reply must carry that errno, a failed create/remove must leave the tree unchanged, and the twin is re-synchronised afterwards. With probability 0.4 a Twstat step (rename, truncate, chmod, chown, mtime) is sent on a fid that was first opened with a drawn mode (OREAD/OWRITE/ORDWR/OEXEC). Every 4th run is the stratum 'session': 1..4 long-lived fids, each modelled as the path it designates plus (once open) an open file of the twin; 16..60 requests (Tstat, Topen with every mode, Twrite, Tread, Twstat length / mode / name, Tremove, Tcreate through a directory fid, Tclunk) go through a drawn live fid, the twin gets the POSIX operation on that path or open file, replies, read data, stat fields and the two trees are compared after every step; fids that a rename or remove would leave dangling are clunked first. Half of all Twrites are followed at once by 1..3 further requests.",
 		Real:       ufsReal, Stub: ufsStub,
 		ProbeNames: []string{"create-error", "remove-error", "rename", "truncate", "chmod", "set-mtime", "symlink-create", "hardlink-create"}})
 }
